@@ -477,9 +477,10 @@ Lemma discovery_irrelevant : forall opts cl rd sc ex d d',
   /\ construct (Setup (NewOIDC d) opts cl rd sc ex) = construct (Setup (NewOAuth (d_auth d)) opts cl rd sc ex).
 Proof. intros opts cl rd sc ex d d' Hd. unfold construct. cbn [s_ctor s_opts endpoint]. now rewrite Hd. Qed.
 
-Lemma spec_model_true : forall i, spec i (model i) = true.
+(* the histories of rounds 1-10 (constructor Inp); the other constructors: C17_ext_proofs.v *)
+Lemma spec_model_true_inp : forall s tab j0 ops, spec (Inp s tab j0 ops) (model (Inp s tab j0 ops)) = true.
 Proof.
-  intros [s tab j0 ops]. cbn [model spec]. destruct (intended s) as [cfg|] eqn:Ei; [|reflexivity].
+  intros s tab j0 ops. cbn [model spec]. destruct (intended s) as [cfg|] eqn:Ei; [|reflexivity].
   rewrite (construct_intended s cfg Ei). unfold run. apply spec_run_model.
   - intros Hh _. apply jar_honest_inv. unfold honest in Hh. now apply andb_true_iff in Hh as [H1 _].
   - intro Hh. unfold honest in Hh. now apply andb_true_iff in Hh as [_ H2].
